@@ -1,0 +1,15 @@
+//go:build verif
+
+// Contracts for govc (see /verif/DESIGN.md). Comment-only file: no executable code.
+
+package common
+
+//@ property C05 C06 C36
+// addrID(a): the 20-byte id part of an address; acc_addr(pk): account address derived from a public key
+//@ spec addrID(a) = bseq(arr(a), 1, 20)
+//@ smt all (declare-fun acc_addr (BSeq) BSeq)
+//@ func NewAccountAddressFromPublicKey(pubKey) (a)
+//@   trusted
+//@   pure
+//@   requires pubKey != nil
+//@   ensures a != nil && addrID(a) == acc_addr(pk_bytes(ref(pubKey))) && addr_id(toiface(a)) == acc_addr(pk_bytes(ref(pubKey)))
